@@ -47,6 +47,11 @@ pub struct Case {
     pub poll: bool,
     /// behaviour for the k-th request the master sends, then an injection
     pub script: Vec<(Beh, Inject)>,
+    /// the k-th reply (if it is a proper one) also shows IIN2.3, event buffer overflow: the master - configured to do so -
+    /// schedules another integrity poll, which does not close the gate for unsolicited data; a restart indication seen
+    /// while that poll is pending or running does
+    #[serde(default)]
+    pub overflow_at: Option<u8>,
 }
 
 #[derive(Clone, Copy, Debug, PartialEq, Eq, PartialOrd, Ord)]
@@ -127,7 +132,10 @@ impl Prop for Startup {
             prop_oneof![Just(50u16), Just(100), 20u16..300],
             0u16..1000,
             any::<bool>(),
-            proptest::collection::vec((beh, inject), 1..n),
+            (
+                proptest::collection::vec((beh, inject), 1..n),
+                prop_oneof![2 => Just(None), 1 => (0u8..12).prop_map(Some)],
+            ),
         )
             .prop_map(
                 |(
@@ -138,7 +146,7 @@ impl Prop for Startup {
                     retry_min,
                     extra,
                     poll,
-                    script,
+                    (script, overflow_at),
                 )| Case {
                     disable_mask,
                     enable_mask,
@@ -148,6 +156,7 @@ impl Prop for Startup {
                     retry_max: retry_min.saturating_add(extra),
                     poll,
                     script,
+                    overflow_at,
                 },
             )
             .boxed()
@@ -182,6 +191,7 @@ async fn run_case(case: &Case) -> CaseOut {
         Some(m) => Classes::new(true, classes(m)),
         None => Classes::none(),
     };
+    cfg.auto_integrity_scan_on_buffer_overflow = case.overflow_at.is_some();
     cfg.auto_time_sync = match case.time_sync {
         1 => Some(TimeSyncProcedure::Lan),
         2 => Some(TimeSyncProcedure::NonLan),
@@ -384,9 +394,16 @@ async fn run_case(case: &Case) -> CaseOut {
         let mut alt: Option<u64> = None;
         match beh {
             Beh::Ok(i1) => {
-                r.iin = Some((*i1, 0));
+                let overflow = case.overflow_at.map(|x| x as usize) == Some(k);
+                r.iin = Some((*i1, if overflow { 0x08 } else { 0 }));
                 rig.respond(OUT, &r);
                 rig.settle().await;
+                if overflow && case.integrity.is_some() {
+                    // another integrity poll is due (the gate for unsolicited data stays as it is)
+                    out.label("overflow_indication_seen");
+                    m.need[2] = true;
+                    m.open[2] = false;
+                }
                 if *i1 & iin1::RESTART != 0 {
                     out.label("restart_seen");
                 }
